@@ -216,6 +216,10 @@ macro_rules! nt_arith {
         $rec.form("div_mod_floor", || wide(Integer::div_mod_floor(&a, &b)));
         $rec.form("gcd", || val(Integer::gcd(&a, &b)));
         $rec.form("lcm", || val(Integer::lcm(&a, &b)));
+        $rec.form("gcd_lcm", || wide(Integer::gcd_lcm(&a, &b)));
+        $rec.form("nt_div_ceil", || val(Integer::div_ceil(&a, &b)));
+        $rec.form("nt_next_multiple_of", || val(Integer::next_multiple_of(&a, &b)));
+        $rec.form("nt_prev_multiple_of", || val(Integer::prev_multiple_of(&a, &b)));
         $rec.form("is_multiple_of", || boolv(Integer::is_multiple_of(&a, &b)));
         $rec.form("divides", || boolv(Integer::divides(&a, &b)));
         $rec.fam("mul_add", vec![int(&a), int(&b), int(&c)]);
@@ -469,7 +473,8 @@ fn root_inputs(r: &mut Rng, n: usize, thorough: bool) -> Vec<(B, u32)> {
     let mut v: Vec<(B, u32)> = Vec::new();
     let degs_all: Vec<u32> = vec![1, 2, 3, 4, 5, 6, 7, 8, 9, 10, 11, 13, 16, 17, 31, 32, 33, 40, 63, 64, 65, 100, 127, 128, 129, 255, 256, 1000, w - 1, w, w + 1, u32::MAX, 1u32 << 31];
     let degs: Vec<u32> = if thorough { degs_all.clone() } else {
-        let mut d = vec![1u32, 2, 3, 4, 5, 7, 40, w, u32::MAX];
+        // always: the degrees at which n or n - 1 stops fitting a u8 / u16 digit
+        let mut d = vec![1u32, 2, 3, 4, 5, 7, 40, w, u32::MAX, 255, 256, 257, 65535, 65536, 65537];
         for _ in 0..5 {
             d.push(*r.pick(&degs_all));
         }
@@ -591,6 +596,33 @@ where
                 let a = gen::fit(&gen::umul(&gen::trim(g.clone()), &gen::trim(gen::small(n, 1 + r.below(1000)))), n);
                 let b = gen::fit(&gen::umul(&gen::trim(g.clone()), &gen::trim(gen::small(n, 1 + r.below(1000)))), n);
                 ps.push((if r.below(3) == 0 { gen::negate(&a) } else { a }, if r.below(3) == 0 { gen::negate(&b) } else { b }));
+            }
+            // near-full-size operands with a large common factor: bit lengths adding up to about BITS + 1
+            for _ in 0..scale(16, 150) {
+                let gk = 1 + r.below((n as u64 / 2).max(1)) as usize;
+                let g = gen::trim(gen::short(&mut r, gk));
+                if g.is_empty() {
+                    continue;
+                }
+                let rest = 8 * n + 1 + r.below(3) as usize; // total bits of a and b together: BITS+1 .. BITS+3
+                let gb = 8 * g.len();
+                if rest <= 2 * gb + 2 {
+                    continue;
+                }
+                let pb = (rest - 2 * gb) / 2;
+                let qb = rest - 2 * gb - pb;
+                let mk = |r: &mut Rng, bits: usize| -> B {
+                    let mut v = gen::random(r, bits / 8 + 1);
+                    let top = bits % 8;
+                    let l = v.len();
+                    v[l - 1] = if top == 0 { 0 } else { (v[l - 1] & ((1u16 << top) - 1) as u8) | (1u8 << (top - 1)) };
+                    gen::trim(v)
+                };
+                let pa = gen::umul(&g, &mk(&mut r, pb.max(1)));
+                let pq = gen::umul(&g, &mk(&mut r, qb.max(1)));
+                if gen::trim(pa.clone()).len() <= n && gen::trim(pq.clone()).len() <= n {
+                    ps.push((gen::fit(&gen::trim(pa), n), gen::fit(&gen::trim(pq), n)));
+                }
             }
             for (a, b) in ps.iter() {
                 let cc = gen::any(&mut r, n, &bnd);
